@@ -40,8 +40,8 @@ def _cast(x, dtype):
         return float(x)
     if dtype in (int64, int):
         if isinstance(x, float):
-            if math.isnan(x) or math.isinf(x):
-                return INT64_MIN  # what the C cast yields on x86-64
+            if math.isnan(x) or math.isinf(x) or x >= 9223372036854775808.0 or x < -9223372036854775808.0:
+                return INT64_MIN  # what the C cast yields on x86-64 for NaN, inf and out-of-range values
             return int(x)
         return int(x)
     if dtype is bool:
